@@ -155,12 +155,24 @@ class JSONF(Fmt):
         from flamapy.metamodels.fm_metamodel.transformations import JSONReader
         with open(path, encoding="utf-8") as fh:
             obj = json.load(fh)
+        import copy
+        pristine = copy.deepcopy(obj)
         try:
             m2 = JSONReader.parse_json(obj)
         except Exception as e:  # noqa: BLE001
             return ("parse_json-equals-file-read", f"raises:{type(e).__name__}@parse_json", str(e)[:200])
         if S.observe(m2) != S.observe(model):
             return ("parse_json-equals-file-read", "model-differs", first_obs_diff(S.observe(model), S.observe(m2)))
+        # the caller's loaded object is input, not scratch space: unchanged afterwards, and parsing it again
+        # gives the same model
+        if obj != pristine:
+            return ("parse_json-equals-file-read", "loaded-object-modified", "parse_json changed the JSON object it was given")
+        try:
+            m3 = JSONReader.parse_json(obj)
+            if S.observe(m3) != S.observe(model):
+                return ("parse_json-equals-file-read", "model-differs-on-second-parse", first_obs_diff(S.observe(model), S.observe(m3)))
+        except Exception as e:  # noqa: BLE001
+            return ("parse_json-equals-file-read", f"raises:{type(e).__name__}@second-parse_json", str(e)[:200])
         return None
 
     def classes(self):
@@ -182,8 +194,28 @@ class JSONF(Fmt):
         c.append(("name:all-hostile", inject.inj_rename_all("name:punct")))
         c.append(("name:case-twin", inject.inj_case_twin))
         c.append(("name:dash-twin", inject.inj_dash_twin))
+        c.append(("name:nfc-twin", inject.inj_nfc_twin))
         c.append(("rel:card[a..*]", inject.inj_group(lambda k: 1 if k < 3 else 2, -1)))
         return c
+
+
+def afm_case_twin(spec, r):
+    """Case twins that are both AFM WORDs (Pay / PAY): swapcase would start with a lower-case letter."""
+    feats = list(S.features(spec["root"]))
+    if len(feats) < 3:
+        return None
+    a, b = r.sample(feats[1:], 2)
+    twin = a["name"].upper()
+    if twin == a["name"] or twin in S.feature_names(spec) or len(a["name"]) < 2:
+        return None
+    old = b["name"]
+    b["name"] = twin
+    for c in spec["ctcs"]:
+        c["ast"] = inject._subst(c["ast"], old, twin)
+    other = feats[0]["name"]
+    spec["ctcs"].append({"name": "t0", "ast": ["REQUIRES", a["name"], other]})
+    spec["ctcs"].append({"name": "t1", "ast": ["REQUIRES", twin, other]})
+    return spec
 
 
 class AFM(Fmt):
@@ -197,6 +229,7 @@ class AFM(Fmt):
         c += ctc_classes(LOG7)
         c.append(("name:afm-word", inject.inj_rename("name:afm-word")))
         c.append(("name:afm-word-root", inject.inj_rename("name:afm-word", where="root")))
+        c.append(("name:case-twin", afm_case_twin))
         return c
 
 
@@ -213,6 +246,7 @@ class FIDE(Fmt):
                 c.append((t, inject.inj_rename(t)))
         c.append(("name:root-space", inject.inj_rename("name:space", where="root")))
         c.append(("name:case-twin", inject.inj_case_twin))
+        c.append(("name:nfc-twin", inject.inj_nfc_twin))
         return c
 
 
@@ -230,6 +264,7 @@ class GLENCOE(Fmt):
                 c.append((t, inject.inj_rename(t)))
         c.append(("name:root-space", inject.inj_rename("name:space", where="root")))
         c.append(("name:case-twin", inject.inj_case_twin))
+        c.append(("name:nfc-twin", inject.inj_nfc_twin))
         return c
 
 
